@@ -181,6 +181,8 @@ def run_exchanges(ctx, groups, per_design=40, name="gen-x"):
         for v in vectors:
             di, svc, meth = where[index[(hg.shape_key(v), v.get("flag") in RD)]]
             plan.append((tag, v, base + di, svc, meth))
+            if together:
+                v["together"] = True          # (marks the exchanges of a design that was packed with colliding bodies on purpose)
     pl = hg.Pipeline(ctx, name)
     pl.prepare(designs)
     bins = pl.build_runners(designs)
